@@ -618,6 +618,41 @@ theorem c04_typed_f32_leaf (mcfg : Cfg) (hfr : mcfg.fr = true) (src : Src) (ext 
     rw [hsz, SJ.Proofs.Typed.deTyped_f32, this]
     simp [Model.Stream.skipWs]
 
+/-- the named hypothesis for an `f32` in a build without `float_roundtrip`: the text `ryu` prints for the `f32`, converted by the
+    configured (default) algorithm to an `f64` and cast by serde's visitor (`as f32`), is the `f32` again. (It holds for every
+    finite `f32` when the conversion is within the 2^29-fold slack between `f64` and `f32` precision of the 9-digit decimal —
+    C08's bounds; not proved here: the harness op `f32all` of C07 checks all 2^32 patterns in the default build.) -/
+def F32RoundTrip (cfg : Cfg) (ext : Ext) (b : UInt32) : Prop :=
+  ∃ y, Spec.Canon.numOf (specCfg cfg) (Spec.Number.splitNumber (ext.ryu32 b)) = some (Num.float y) ∧ Model.FromValue.f64ToF32 y = b
+
+/-- **C04 (typed values), the `f32` leaf in the default build** under the named hypothesis `F32RoundTrip` -/
+theorem c04_typed_f32_leaf_default (mcfg : Cfg) (hfr : mcfg.fr = false) (hap : mcfg.ap = false) (src : Src) (ext : Ext)
+    (hext : ExtOK ext) (b : UInt32) (hb : Spec.Program.finite32 b = true) (hrt : F32RoundTrip mcfg ext b) :
+    ∃ bufs, serCompact ext (Model.TypedSer.progOf .f32 (.f32 b)) = .ok bufs ∧
+      Model.Typed.deTypedTop { cfg := mcfg, src := src } .f32 bufs.flatten = .ok (.f32 b) := by
+  have himg : Spec.Image.image ext (Model.TypedSer.progOf .f32 (.f32 b)) = .ok (Spec.Image.numOf (ext.ryu32 b)) := by
+    simp [Model.TypedSer.progOf, Spec.Image.image, hb]
+  cases hser : serCompact ext (Model.TypedSer.progOf .f32 (.f32 b)) with
+  | error e =>
+    have := ((SJ.Props.C03.c03_error_iff ext hext _ e).1).1 hser
+    rw [himg] at this; cases this
+  | ok bufs =>
+    refine ⟨bufs, rfl, ?_⟩
+    obtain ⟨d, hd', htext, _⟩ := SJ.Props.C03.c03_compact ext hext _ rfl bufs hser
+    rw [himg] at hd'; cases hd'
+    rw [htext]
+    have htxt : Spec.Image.render (Spec.Image.numOf (ext.ryu32 b)) = ext.ryu32 b := by
+      simp only [Spec.Image.render, Spec.Image.numOf, Spec.Image.layoutWith]
+      exact SJ.Proofs.Number.splitNumber_bytes _
+    rw [htxt]
+    obtain ⟨y, hy, hyb⟩ := hrt
+    have := SJ.Proofs.TypedFloat.deNumber_f32_default (env := { cfg := mcfg, src := src }) rfl hap ext hext hfr b hb y hy [] 0 (.inl rfl)
+    simp only [List.append_nil] at this
+    unfold Model.Typed.deTypedTop
+    have hsz : Model.Typed.Schema.size Schema.f32 + 1 = 1 + 1 := rfl
+    rw [hsz, SJ.Proofs.Typed.deTyped_f32, this, hyb]
+    simp [Model.Stream.skipWs]
+
 /-- `struct P { x: f64, n: Vec<u8> }` with `x = 1.5` (`ext0` prints `1.5`): the float hypothesis holds at this value (by
     evaluation of the default conversion on `1.5`), so the pair round-trips by the theorem -/
 def exFSchema : Schema := .struct_ [([0x78], .f64), ([0x6e], .seq (.int .u8))] false
